@@ -719,19 +719,19 @@ def validate_real_traces(cfgs, records, name, timeout=900, bars=False):
     return rejected, res
 
 
-def run_real_with_sigint(cfg, name, timeout=60, send_signal=True):
+def run_real_with_sigint(cfg, name, timeout=60, send_signal=True, one_pool=False):
     """run_real_with_sigint_once, repeated (at most three times) while the HARNESS failed to deliver the signal at the
     agreed point (a chain waited at the barrier in vain, or the run ended before the signal was sent): such a run says
     nothing about the sampler.  Still inconclusive after three attempts: {"inconclusive": ...} (reported as drift)."""
     obs = None
     for attempt in range(3):
-        obs = run_real_with_sigint_once(cfg, f"{name}" if attempt == 0 else f"{name}_retry{attempt}", timeout, send_signal)
+        obs = run_real_with_sigint_once(cfg, f"{name}" if attempt == 0 else f"{name}_retry{attempt}", timeout, send_signal, one_pool)
         if not obs.get("inconclusive"):
             return obs
     return obs
 
 
-def run_real_with_sigint_once(cfg, name, timeout=60, send_signal=True):
+def run_real_with_sigint_once(cfg, name, timeout=60, send_signal=True, one_pool=False):
     """Run the configuration in a child process (own session) and deliver a real SIGINT to the whole
     process group once every chain that can be running waits at the interrupt point."""
     import signal
@@ -742,6 +742,8 @@ def run_real_with_sigint_once(cfg, name, timeout=60, send_signal=True):
     d = tlc.fresh_dir(name)
     (d / "cfg.json").write_text(json.dumps(cfg))
     env = dict(os.environ)
+    if one_pool:
+        env["MBV_ONE_POOL_PROCESS"] = "1"
     p = subprocess.Popen([sys.executable, "-m", "mbv.sampler_sigint", str(d / "cfg.json"), str(d / "out.json"),
                           str(d) if send_signal else "-"],
                          env=env, start_new_session=True, stdout=subprocess.DEVNULL, stderr=subprocess.PIPE)
